@@ -24,11 +24,18 @@ type c08Case struct {
 	S    []uint64    `json:"scalars,omitempty"`
 	Exp  uint64      `json:"exponent,omitempty"`
 	Exp2 uint64      `json:"exponent2,omitempty"`
+	// Alias: every extension operand is the *same circuit variable* (e.g. mul(a,a), muladd(a,a,a), div(a,a))
+	Alias bool `json:"alias,omitempty"`
 }
 
 func toA(a, b [2]uint64) ref.A { return ref.A{toE(a), toE(b)} }
 
 func c08Run(c c08Case) caseResult {
+	if c.Alias {
+		for i := range c.E {
+			c.E[i] = c.E[0]
+		}
+	}
 	in := flatE(toEs(c.E))
 	in = append(in, u64s(c.S)...)
 	ne := len(c.E)
@@ -134,7 +141,12 @@ func c08Run(c c08Case) caseResult {
 	}
 	fn := func(api frontend.API, v []frontend.Variable) []frontend.Variable {
 		g := gl.New(api)
-		e := func(i int) gl.QuadraticExtensionVariable { return qev(v[2*i], v[2*i+1]) }
+		e := func(i int) gl.QuadraticExtensionVariable {
+			if c.Alias {
+				i = 0
+			}
+			return qev(v[2*i], v[2*i+1])
+		}
 		sc := func(i int) frontend.Variable { return v[2*ne+i] }
 		one := func(x gl.QuadraticExtensionVariable) []frontend.Variable {
 			return []frontend.Variable{x[0].Limb, x[1].Limb}
@@ -334,7 +346,12 @@ func TestC08(t *testing.T) {
 		case "law-exp":
 			c.Exp, c.Exp2 = genExp(rt)>>1, genExp(rt)>>1
 		}
-		s.exec(rt, "ext", c, "ext/"+op)
+		class := "ext/" + op
+		if arity[op] >= 2 && rapid.IntRange(0, 5).Draw(rt, "alias") == 0 {
+			c.Alias = true
+			class += "/aliased-operands"
+		}
+		s.exec(rt, "ext", c, class)
 	})
 	r.Done()
 }
